@@ -63,6 +63,7 @@ def witness(script, outname, build_first):
     open(os.path.join(GEN, outname), "w").write(p.stdout)
 
 
+<<<<<<< HEAD
 def schema():
     """drivers/pg/query/sql/schema_up.sql -> Generated/Schema.lean (tables, composite types, functions)."""
     _rm("Schema.lean")
@@ -70,3 +71,30 @@ def schema():
                   os.path.join(REPO, "drivers", "pg", "query", "sql", "schema_up.sql"), os.path.join(GEN, "Schema.lean")], timeout=120)
     if rc != 0:
         raise RuntimeError("schema.py failed: " + out[-1500:])
+=======
+def c06_sites():
+    """Scope access sites of cypher/models/pgsql/translate with the provenance of their identifier argument."""
+    goext("c06", "C06Sites.lean")
+
+
+GOTYPED_SRC = os.path.join(VERIF, "tools", "extract", "gotyped")
+GOTYPED_BIN = os.path.join(VERIF, "tools", "extract", "bin", "gotyped")
+
+
+def gotyped(mode, outname):
+    """Type-aware extractor (go/types, source importer); its own module so that the repository's toolchain builds it."""
+    if "gotyped" not in _done:
+        rc, out = sh(["go", "build", "-o", GOTYPED_BIN, "."], cwd=GOTYPED_SRC, env=GOENV, timeout=600)
+        if rc != 0:
+            raise RuntimeError("gotyped build failed: " + out[-1500:])
+        _done.add("gotyped")
+    _rm(outname)
+    rc, out = sh([GOTYPED_BIN, mode, REPO, os.path.join(GEN, outname)], env=GOENV, timeout=600)
+    if rc != 0:
+        raise RuntimeError("gotyped %s failed: %s" % (mode, out[-1500:]))
+
+
+def c05_facts():
+    """map ranges (typed), parameter-map copy, query uses, walk.Generic shape, kind mapper lock table."""
+    gotyped("c05", "C05_ranges.lean")
+>>>>>>> build-c05
